@@ -56,6 +56,9 @@ func (t *Transfer) ReadTampered(maxAfterErr int) (TamperObs, *Problem) {
 				return o, nil
 			}
 		}
+		if t.LastEmpty && err == nil {
+			continue // (0, nil) is what an empty buffer gets
+		}
 		if n == 0 && err == nil {
 			zero++
 			if zero > t.MaxZeroReads {
